@@ -85,8 +85,10 @@ def gen_plain(g, n, tier, scale=1.0):
         ls = lens_around(z, (zp,)) if j % 4 == 0 and not (quick and g.fb > 1 and j > 0) else ([z] if quick and g.fb > 1 else [z - 1, z, z + 1])
         for ln in ls:
             g.line("write", n, 0, ln, tok(v))
-    if n in PACKARG:
+    if n in PACKARG and n != 54:
         # pack = 1 on elements outside the cyclotomic subgroup (random) and on 0, 1
+        # (not at degree 54: fp54_test_cyc goes through fp54_frb, whose constant tables do not exist for these primes -
+        #  known finding C10-fp54-frb, an out-of-table read under UBSan; the packed forms of fp54 are not driven)
         for j, v in enumerate(vals[:2] + vals[-nr:]):
             g.line("size", n, 1, tok(v))
             for ln in (lens_around(z, (zp, n // 2 * fb)) if j < 3 else [zp, z]):
